@@ -16,17 +16,28 @@ LEVEL_TEXT = ("The contract TaskingInit (state: initialised?, count in force; In
               "of all histories one step longer and long seeded random walks over every n in -2..2H+1 are executed on the real initTaskingSystem / "
               "numTaskingThreads / parallel_for of all four backends, each history in a fresh process; exact answers are compared with the values "
               "TLC computed and every execution (answers, and the entry/exit order of the loop bodies stamped by one atomic counter) is validated "
-              "by TLC against the contract.")
+              "by TLC against the contract.  A boundary instance of the specification adds the corners of the quantifier: counts H-1, H, H+1, "
+              "2H-1, 2H and far negative ones, initialisation from another thread / with flushDenormals, a thread that exists before the first "
+              "initialisation, loop sizes computed by the specification from the count in force (0, 1, n-1, n, n+1, 4n, 4n+1, 1025, 4097; thorough "
+              "65537), every index type and loop API, bursts of 255 / 256 / 257 (thorough also 4096 / 65536 +-1) re-initialisations or loops as "
+              "single macro actions (TLC checks that a burst is the iteration of single steps and that a concatenated recording is judged like its "
+              "parts), two loops issued at the same moment by two threads; every option of that alphabet is executed after 'count set' and 'count "
+              "replaced' (thorough: one history per transition of its graph).")
 LEVEL_NOTE = ("the observed concurrency is a sound lower bound (bodies whose entry..exit stamp intervals overlap were really inside at the same "
               "time); a loop that over-subscribes without the recorder seeing the overlap is missed, never the converse; schedules are whatever the "
-              "backend runtime produces (perturbed by loop size, lingering and body cost drawn from the seed), not enumerated; Init is always issued "
-              "by the main thread; trusted: TLC, the atomic stamp counter, fork() of a parent that never touched the tasking system as 'fresh process'")
+              "backend runtime produces (perturbed by loop size, lingering and body cost drawn from the seed), not enumerated; one thread acts at a "
+              "time except in LoopPair (two simultaneous calls, each call bounded on its own; not run on the Internal backend, whose scheduler is "
+              "single-producer per thread slot); counts above 2H+1, throwing loop bodies and re-initialisation while a loop is running are outside "
+              "the statement's quantifier and not explored; bursts of 65536 re-initialisations are not run on the Internal backend (minutes per "
+              "history); trusted: TLC, the atomic stamp counter, fork() of a parent that never touched the tasking system as 'fresh process'")
 TECHNIQUE = ("TLA+ contract + TLC model checking (summary rule = momentary rule, declarative reading, laws of allowed answers); state-graph histories "
              "executed in fresh processes on 4 backends; TLC trace validation of every recorded execution")
 
 SPEC = os.path.join(VERIF, "spec", "tasking")
 BACKENDS = ["TBB", "OpenMP", "Internal", "Debug"]
-FIELD = {"Query": "r", "Loop": "maxConcurrent", "Init": "void"}
+FIELD = {"Query": "r", "Loop": "maxConcurrent", "LoopBurst": "maxConcurrent", "LoopPair": "maxConcurrent", "Init": "void", "InitBurst": "void"}
+LOOPLIKE = ("Loop", "LoopBurst", "LoopPair")
+DECOR = ("mult", "patience", "work")
 
 
 # ---------------------------------------------------------------------------
@@ -40,16 +51,19 @@ def hw_of(exe):
 
 
 def decorate(h, rnd, thorough):
-    """Adds the binding's free input choices (loop size multiplier >= 4, lingering patience, body cost) to Loop steps.
-    They are inputs of the real execution drawn from the seed, not part of what the contract constrains."""
+    """Adds the binding's free input choices (lingering patience, body cost; loop size multiplier >= 4 for loops whose task count
+    the specification did not fix) to loop steps.  They are inputs of the real execution drawn from the seed, not part of what
+    the contract constrains."""
     out = []
     for st in h:
         st = dict(st)
-        if st["a"] == "Loop":
+        if st["a"] in LOOPLIKE:
             arg = dict(st["arg"])
-            arg["mult"] = rnd.choice([4, 4, 5, 6, 9] if thorough else [4, 4, 5])
+            if "k" not in arg:
+                arg["mult"] = rnd.choice([4, 4, 5, 6, 9] if thorough else [4, 4, 5])
             arg["patience"] = rnd.choice([1000, 2000, 4000] if thorough else [1000, 2000])
-            arg["work"] = rnd.choice([0, 0, 20, 200])
+            if st["a"] == "Loop":
+                arg["work"] = rnd.choice([0, 0, 20, 200]) if arg.get("k", 0) <= 2000 else 0
             st["arg"] = arg
         out.append(st)
     return out
@@ -106,18 +120,21 @@ def to_events(backend, h, r):
         if "unexpected_exception" in o:
             evs.append({"a": "exception", "arg": st["arg"], "during": st["a"], "obs": o, "step": k})
             break
-        if st["a"] == "Loop":
+        if st["a"] in LOOPLIKE:
             if o.get("malformed"):
                 raise InfraError("recorder: entry/exit table incomplete after parallel_for returned (bodies still running or more bodies than tasks; "
                                  "that is property C01's subject) on %s: %s" % (backend, json.dumps(st)))
-            evs.append({"a": "Loop", "arg": {"from": st["arg"]["from"], "shape": st["arg"]["shape"]}, "obs": {"deltas": o["deltas"]}})
+            obs = {"d1": o["d1"], "d2": o["d2"]} if st["a"] == "LoopPair" else {"deltas": o["deltas"]}
+            evs.append({"a": st["a"], "arg": st["arg"], "obs": obs})
         elif st["a"] == "Query":
             evs.append({"a": "Query", "arg": st["arg"], "obs": {"r": o["r"]}})
             exp = st.get("exp") or {}
             if "r" in exp and exp["r"] != o["r"]:
                 mm.append((k, exp["r"], o["r"]))
+        elif st["a"] in ("Init", "InitBurst"):
+            evs.append({"a": st["a"], "arg": st["arg"], "obs": {"void": True}})
         else:
-            evs.append({"a": "Init", "arg": st["arg"], "obs": {"void": True}})
+            raise InfraError("unknown action in a history: %s" % st["a"])
     return evs, mm
 
 
@@ -216,10 +233,11 @@ def judge(chk, backend, hw, hists, out):
         a = ev.get("during") or ev["a"]
         field = ev["a"] if ev["a"] in ("crash", "exception") else FIELD[a]
         cls = cls or st.get("cls", "")
-        if ev["a"] == "Loop":
-            what = ("%s backend (H=%d): step %d of %s: parallel_for (%s, issued by the %s) had %d bodies inside at the same time by the stamp order; "
-                    "the contract allows %s" % (backend, hw, kk, brief(h), st["arg"]["shape"], st["arg"]["from"], peak_of(ev["obs"]["deltas"]),
-                                                json.dumps(st.get("exp"))))
+        if ev["a"] in LOOPLIKE:
+            pk = max(peak_of(ev["obs"]["d1"]), peak_of(ev["obs"]["d2"])) if ev["a"] == "LoopPair" else peak_of(ev["obs"]["deltas"])
+            what = ("%s backend (H=%d): step %d of %s: %s (%s, issued by the %s) had %d bodies of one call inside at the same time by the stamp "
+                    "order; the contract allows %s" % (backend, hw, kk, brief(h), ev["a"], loop_desc(st["arg"]), st["arg"]["from"], pk,
+                                                       json.dumps(st.get("exp"))))
         elif ev["a"] == "Query":
             what = "%s backend (H=%d): step %d of %s: numTaskingThreads() from the %s returned %s; the contract allows %s" % (
                 backend, hw, kk, brief(h), st["arg"]["from"], ev["obs"]["r"], json.dumps(st.get("exp")))
@@ -228,40 +246,180 @@ def judge(chk, backend, hw, hists, out):
         obs = res[ei].get("obs")
         chk.violation(sig_of(backend, a, cls, field), what,
                       {"kind": "history", "property": "C13", "backend": backend, "hw": hw, "history": h, "observed": slim(obs) if obs else res[ei],
-                       "failed_step": kk, "field": field, "rejected_event": slim([ev["obs"]])[0] if ev["a"] == "Loop" else ev})
+                       "failed_step": kk, "field": field, "rejected_event": slim([ev["obs"]])[0] if ev["a"] in LOOPLIKE else ev})
     chk.cov["evaluations"] += len(hists)
     chk.cov["traces_validated_against_impl"] += len(hists)
     chk.cov["trace_events_validated"] = chk.cov.get("trace_events_validated", 0) + sum(len(e) for e in execs)
-    chk.cov["loops_recorded"] = chk.cov.get("loops_recorded", 0) + sum(1 for e in execs for x in e if x["a"] == "Loop")
+    chk.cov["loops_recorded"] = chk.cov.get("loops_recorded", 0) + sum(1 for e in execs for x in e if x["a"] in LOOPLIKE)
+
+
+def loop_desc(arg):
+    return ",".join(str(arg[k]) for k in ("shape", "size", "api", "cnt") if k in arg) + (",k=%s" % arg["k"] if "k" in arg else "")
 
 
 def brief(h):
     out = []
     for st in h:
+        arg = st["arg"]
         if st["a"] == "Init":
-            out.append("Init(%d)" % st["arg"]["n"])
+            out.append("Init(%d%s%s)" % (arg["n"], ",fz" if arg.get("fz") else "", "" if arg.get("from", "init-thread") == "init-thread" else "," + arg["from"][:4]))
+        elif st["a"] == "InitBurst":
+            out.append("InitBurst(%dx..,%d)" % (arg["cnt"], arg["n"]))
         elif st["a"] == "Query":
-            out.append("Query[%s]" % st["arg"]["from"][:4])
+            out.append("Query[%s]" % arg["from"][:4])
         else:
-            out.append("Loop[%s,%s]" % (st["arg"]["from"][:4], st["arg"]["shape"]))
+            out.append("%s[%s,%s]" % (st["a"], arg["from"][:4], loop_desc(arg)))
     return " ".join(out)
 
 
 def slim(obs):
     out = []
     for o in obs:
-        if isinstance(o, dict) and "deltas" in o:
+        if isinstance(o, dict):
             o = dict(o)
-            o["peak_by_stamps(info)"] = peak_of(o["deltas"])
-            if len(o["deltas"]) > 120:
-                o["deltas"] = o["deltas"][:120] + ["..."]
+            for key in ("deltas", "d1", "d2"):
+                if key in o:
+                    o["peak_by_stamps(info)/" + key] = peak_of(o[key])
+                    if len(o[key]) > 120:
+                        o[key] = o[key][:120] + ["..."]
         out.append(o)
     return out
 
 
+def step_key(st):
+    return [st["a"], {k: v for k, v in st["arg"].items() if k not in DECOR}]
+
+
 def nontrivial_distinct(hists):
-    return len({json.dumps([[st["a"], st["arg"].get("n"), st["arg"].get("from"), st["arg"].get("shape")] for st in h]) for h in hists
-                if any(st["a"] == "Init" for st in h)})
+    return len({json.dumps([step_key(st) for st in h], sort_keys=True) for h in hists if any(st["a"] in ("Init", "InitBurst") for st in h)})
+
+
+# ---------------------------------------------------------------------------
+# histories from the boundary instance (paths of TLC's graph, selected by their labels)
+def follow(ag, preds):
+    """The path from the initial state whose i-th step satisfies preds[i] (first matching edge).  Returns (steps, state) or None."""
+    s = ag.init[0]
+    path = []
+    for p in preds:
+        nxt = [(st, d) for st, d in ag.edges.get(s, []) if p(st)]
+        if not nxt:
+            return None
+        path.append(nxt[0][0])
+        s = nxt[0][1]
+    return path, s
+
+
+def is_(a, **kw):
+    return lambda st: st["a"] == a and all(st["arg"].get(k) == v for k, v in kw.items())
+
+
+def boundary_histories(agb, hw, thorough):
+    """Option cover of the boundary alphabet: every non-Init option after 'a positive count set' and 'a positive count replaced'
+    (thorough: also before any initialisation and with the default), every Init / InitBurst option followed by queries from the
+    three threads and a loop, shrinking and growing re-initialisations across the hardware boundary with loops in between."""
+    main = "init-thread"
+    init = lambda n: is_("Init", n=n, **{"from": main, "fz": False})
+    x4 = is_("Loop", shape="flat", size="x4", api="for:int", **{"from": main})
+    prefixes = {"set": [init(3)], "replaced": [init(hw + 1), init(2)], "none": [], "default": [init(0)]}
+    hs = []
+    for cls, pre in prefixes.items():
+        got = follow(agb, pre)
+        if got is None:
+            raise InfraError("boundary graph has no path for prefix class %s" % cls)
+        steps, s = got
+        for st, _ in agb.edges.get(s, []):
+            if st["a"] in ("Init", "InitBurst"):
+                continue
+            if cls in ("none", "default") and not thorough:
+                if st["a"] == "Loop" and not (st["arg"]["shape"] == "flat" and st["arg"]["api"] == "for:int" and st["arg"]["size"] in ("zero", "x4", "b1025")):
+                    continue
+            hs.append(steps + [st])
+    tail = [is_("Query", **{"from": main}), is_("Query", **{"from": "second-thread"}), x4, is_("Query", **{"from": "early-thread"})]
+    for pre in ([], [init(hw + 1)]):
+        steps, s = follow(agb, pre)
+        for st, d in agb.edges.get(s, []):
+            if st["a"] not in ("Init", "InitBurst"):
+                continue
+            # continue from the state this option leads to
+            path, cur = [], d
+            for p in tail:
+                nxt = [(e, dd) for e, dd in agb.edges.get(cur, []) if p(e)]
+                if not nxt:
+                    raise InfraError("boundary graph: no continuation after %s" % json.dumps(st))
+                path.append(nxt[0][0])
+                cur = nxt[0][1]
+            hs.append(steps + [st] + path)
+    lo = max(hw - 1, 1)
+    for a, b in ((hw + 1, lo), (lo, hw + 1), (2 * hw, 1), (1, 2 * hw), (hw, 2), (3, hw)):
+        for f in ("init-thread", "early-thread"):
+            lp = is_("Loop", shape="flat", size="x4", api="for:int", **{"from": f})
+            got = follow(agb, [init(a), lp, init(b), lp, is_("Query", **{"from": f})])
+            if got:
+                hs.append(got[0])
+    return hs
+
+
+def reinit_loop_histories(ag):
+    """From the base graph: Init(a) Loop Init(b) Loop for all positive a # b and both issuing threads (the same loop site runs under
+    two settings)."""
+    hs = []
+    pos = sorted({st["arg"]["n"] for st, _ in ag.edges.get(ag.init[0], []) if st["a"] == "Init" and st["arg"]["n"] > 0})
+    for a in pos:
+        for b in pos:
+            if a == b:
+                continue
+            for f1 in ("init-thread", "second-thread"):
+                for f2 in ("init-thread", "second-thread"):
+                    got = follow(ag, [is_("Init", n=a), is_("Loop", shape="flat", **{"from": f1}), is_("Init", n=b), is_("Loop", shape="flat", **{"from": f2})])
+                    if got is None:
+                        raise InfraError("base graph lacks Init(%d) Loop Init(%d) Loop" % (a, b))
+                    hs.append(got[0])
+    return hs
+
+
+def affordable(agb, thorough, backend):
+    """The boundary graph without the edges that are too expensive to execute from every state (selection of inputs only):
+    bursts of loops are kept where a small positive count is in force (elsewhere one representative in the thorough tier) -
+    a loop with 16 and more threads costs milliseconds on an oversubscribed machine -, the bursts of thousands of loops /
+    initialisations once, and nothing that the backend does not support (Internal: two threads issuing loops at once;
+    65536 re-creations of its scheduler take minutes)."""
+    g = adt.AbsGraph()
+    g.states, g.index, g.init = agb.states, agb.index, agb.init
+    for s, es in agb.edges.items():
+        lim, inited = agb.states[s]["limit"], agb.states[s]["inited"]
+        kept = []
+        for st, d in es:
+            a, arg = st["a"], st["arg"]
+            ok = True
+            if a == "LoopBurst":
+                main = arg["from"] == "init-thread"
+                if arg["cnt"] > 1000:
+                    ok = thorough and lim == 3
+                elif 1 <= lim <= 3:
+                    ok = thorough or lim == 3 or (arg["cnt"] == 256 and main)
+                else:
+                    ok = thorough and arg["cnt"] == 256 and main
+            elif a == "InitBurst" and arg["cnt"] > 1000:
+                ok = thorough and backend != "Internal" and not inited
+            elif a == "LoopPair":
+                ok = backend != "Internal"
+            elif a == "Loop" and arg.get("size") == "b65537":
+                ok = lim == 3 or not inited
+            if ok:
+                kept.append((st, d))
+        g.edges[s] = kept
+        g.nedges += len(kept)
+    return g
+
+
+def option_keys(ag):
+    """Every distinct (action, argument) label of a graph: the alphabet that must have been executed (vacuity guard)."""
+    return {opt_key(st) for s in ag.edges for st, _ in ag.edges[s]}
+
+
+def opt_key(st):
+    """An option of the alphabet: action and arguments without what the specification derives from the state (k, outer)."""
+    return json.dumps([st["a"], {k: v for k, v in st["arg"].items() if k not in DECOR + ("k", "outer")}], sort_keys=True)
 
 
 # ---------------------------------------------------------------------------
@@ -270,8 +428,8 @@ def run(chk, replay=None):
     rnd = random.Random(chk.seed)
     chk.assumptions += [
         "each history runs in a child forked from a parent process that never used the tasking system (= fresh process)",
-        "initTaskingSystem is always called by the main thread; queries and loops come from the main thread or from one additional std::thread "
-        "(created for that step and joined, the main thread idle meanwhile); loops issued concurrently from several threads are not explored",
+        "one thread acts at a time (main thread, a std::thread created for the step and joined, or a thread created before the first action), except "
+        "for LoopPair: two calls released together by a spin barrier, each judged on its own (the statement bounds a parallel_for, not the process)",
         "concurrency is measured from entry/exit stamps of one atomic counter: a lower bound; over-subscription that never shows as overlapping "
         "stamp intervals in any executed loop is missed",
         "H (hardware threads) is what std::thread::hardware_concurrency() reports on this machine; counts above 2H+1 are not explored",
@@ -286,7 +444,7 @@ def run(chk, replay=None):
             raise InfraError("driver for %s reports backend %s" % (b, hw_of(exes[b])[1]))
     hw, _ = hw_of(exes["Debug"])
     K = 2 if quick else 3
-    n_sample, n_walks, walk_len = (150, 30, 8) if quick else (600, 120, 12)
+    n_sample, n_walks, walk_len = (150, 30, 8) if quick else (200, 100, 12)
 
     # 1. the contract itself, per backend kind (runs concurrently with 2.)
     def mc(b):
@@ -304,16 +462,38 @@ def run(chk, replay=None):
         cover = [h for h in adt.edge_cover(ag) if json.dumps(h, sort_keys=True) not in have]      # one shortest history per transition not yet among them
         sample = rnd.sample(nextK, min(len(nextK), n_sample))
         walks = adt.random_walks(agw, n_walks, walk_len, chk.seed * 7919 + BACKENDS.index(b))
-        plain = allK + cover + sample + walks
+        # boundary instance: the corners of the quantifier (see TaskingInitGen.tla)
+        agb_all, rb = graph(b, "TaskingInitGenB.cfg" if quick else "TaskingInitGenB_thorough.cfg", hw, "c13-genb-" + b)
+        agb = affordable(agb_all, not quick, b)
+        bnd = boundary_histories(agb, hw, not quick) + reinit_loop_histories(ag)
+        if not quick:
+            bnd += adt.edge_cover(agb) + adt.random_walks(agb, 80, 8, chk.seed * 104729 + BACKENDS.index(b))
+        seen, uniq = set(), []
+        for h in bnd:
+            key = json.dumps([step_key(st) for st in h], sort_keys=True)
+            if key not in seen:
+                seen.add(key)
+                uniq.append(h)
+        bnd = uniq
+        plain = allK + cover + sample + walks + bnd
         hists = [decorate(h, rnd, not quick) for h in plain]
         out = execute(b, exes[b], hists, "c13-" + b, par=4)
-        out.update({"ag": ag, "r": r, "agw": agw, "rw": rw, "hists": hists, "parts": (len(allK), len(cover), len(sample), len(nextK), len(walks))})
+        # vacuity guard: every option of the boundary alphabet was executed on this backend
+        done = {opt_key(st) for h in hists for st in h}
+        missing = [k for k in option_keys(agb) if k not in done]
+        if missing:
+            raise InfraError("vacuity guard: %d options of the boundary alphabet never executed on %s, e.g. %s" % (len(missing), b, missing[:3]))
+        out.update({"ag": ag, "r": r, "agw": agw, "rw": rw, "agb": agb, "rb": rb, "hists": hists,
+                    "parts": (len(allK), len(cover), len(sample), len(nextK), len(walks), len(bnd))})
         return out
 
+    cls_counts = {}
     with ThreadPoolExecutor(max_workers=8) as ex:
-        fm = {b: ex.submit(mc, b) for b in BACKENDS}
+        # the contract distinguishes backends only as serial / threaded: the quick tier checks one instance of each kind
+        mc_kinds = ["TBB", "Debug"] if quick else BACKENDS
+        fm = {b: ex.submit(mc, b) for b in mc_kinds}
         fp = {b: ex.submit(pipeline, b) for b in BACKENDS}
-        for b in BACKENDS:
+        for b in mc_kinds:
             chk.require_model_ok("TaskingInitMC[%s]" % b, fm[b].result(), "summary rule = momentary rule; declarative reading; laws of allowed answers")
         outs = {b: fp[b].result() for b in BACKENDS}
     for b in BACKENDS:
@@ -323,23 +503,41 @@ def run(chk, replay=None):
         chk.add_model("TaskingInitGen[%s]" % b, out["r"], "generation instance: %d abstract states, %d abstract transitions" % (len(ag.states), ag.nedges))
         chk.add_model("TaskingInitGenWide[%s]" % b, out["rw"], "wide generation instance (every n in -2..2H+1): %d abstract states, %d abstract transitions"
                       % (len(agw.states), agw.nedges))
+        agb = out["agb"]
+        chk.add_model("TaskingInitGenB[%s]" % b, out["rb"], "boundary generation instance: %d abstract states, %d abstract transitions, %d options"
+                      % (len(agb.states), agb.nedges, len(option_keys(agb))))
         chk.count_actions(hists)
+        for h in hists:
+            for st in h:
+                for dim in ("size", "api", "from", "fz", "cnt"):
+                    if dim in st["arg"]:
+                        key = "%s.%s=%s" % (st["a"], dim, st["arg"][dim])
+                        cls_counts[key] = cls_counts.get(key, 0) + 1
         judge(chk, b, hw, hists, out)
         chk.cov["distinct_nontrivial"] += nontrivial_distinct(hists)
-        nall, ncov, nsam, nnext, nwalk = out["parts"]
+        nall, ncov, nsam, nnext, nwalk, nbnd = out["parts"]
         chk.cov["generation_" + b] = {"all_histories_len": K, "all_histories": nall, "transition_cover": ncov, "sampled_histories_len": K + 1,
                                       "sampled_histories": nsam, "of": nnext, "random_walks_wide": nwalk, "walk_len": walk_len,
-                                      "rejected_executions": len(out["rej"])}
-        chk.log("%s: %d histories (all of length %d: %d, cover %d, sample of length %d: %d of %d, wide walks %d) executed in fresh processes in %.1fs; "
+                                      "boundary_histories": nbnd, "boundary_options": len(option_keys(agb)), "rejected_executions": len(out["rej"])}
+        chk.log("%s: %d histories (all of length %d: %d, cover %d, sample of length %d: %d of %d, wide walks %d, boundary %d) executed in fresh processes in %.1fs; "
                 "TLC validated %d trace lines in %.1fs, rejected %d execution(s)"
-                % (b, len(hists), K, nall, ncov, K + 1, nsam, nnext, nwalk, out["wall"], out["stats"]["lines"], out["stats"]["wall"], len(out["rej"])))
+                % (b, len(hists), K, nall, ncov, K + 1, nsam, nnext, nwalk, nbnd, out["wall"], out["stats"]["lines"], out["stats"]["wall"], len(out["rej"])))
         # a sample: the first history with a loop after Init(3)
         for i, h in enumerate(hists):
             if len(h) >= 3 and h[0]["a"] == "Init" and h[0]["arg"]["n"] == 3 and any(st["a"] == "Loop" for st in h) and "obs" in res[i]:
                 chk.add_sample({"kind": "recorded-execution", "backend": b, "history": [{"a": st["a"], "arg": st["arg"], "exp": st.get("exp")} for st in h],
                                 "observed": slim(res[i]["obs"])}, maxn=4)
                 break
-    chk.require_actions(["Init", "Query", "Loop"])
+    chk.require_actions(["Init", "Query", "Loop", "InitBurst", "LoopBurst", "LoopPair"])
+    chk.cov["boundary_class_counts"] = dict(sorted(cls_counts.items()))
+    need = (["Loop.size=" + x for x in ("zero", "one", "below", "equal", "above", "x4", "x4p1", "b1025", "b4097")]
+            + ["Loop.api=" + x for x in ("for:int", "for:size_t", "for:u8", "for:short", "for:i64", "for:int:lvalue", "blocks", "foreach")]
+            + ["Loop.from=early-thread", "Query.from=early-thread", "Init.from=second-thread", "Init.from=early-thread", "Init.fz=True",
+               "InitBurst.cnt=255", "InitBurst.cnt=256", "InitBurst.cnt=257", "LoopBurst.cnt=255", "LoopBurst.cnt=256", "LoopBurst.cnt=257"]
+            + ([] if quick else ["Loop.size=b65537", "InitBurst.cnt=65535", "InitBurst.cnt=65536", "InitBurst.cnt=65537", "LoopBurst.cnt=4097"]))
+    lacking = [x for x in need if not cls_counts.get(x)]
+    if lacking:
+        raise InfraError("vacuity guard: boundary classes never exercised: %s" % lacking)
     chk.cov["hardware_threads"] = hw
     chk.cov["rule"] = ("one execution per (history, backend), each in a fresh process; histories = paths of TLC's complete state graph of TaskingInitGen "
                        "(all of length K, one shortest path per transition, a seeded sample of all of length K+1) and seeded random walks over the wide "
